@@ -218,6 +218,11 @@ namespace GeographicLib {
       double a = std::atan2(y, x);
       return s + Math::AngNormalize(a);
     }
+    // ONE1: the longitude difference is bounded on the east side only
+    static bool InZone(double lon0, double lon) {
+      double dlon = Math::AngDiff(lon0, lon);
+      return !(dlon > 60);
+    }
     // CP1: the northing clause is a copy of the easting clause with one name left behind
     static double Pad(double easting, double northing, double scale) {
       double w = 0;
